@@ -3,8 +3,8 @@
 package gen
 
 import (
-	"encoding/binary"
 	"bytes"
+	"encoding/binary"
 	"fmt"
 
 	"pgregory.net/rapid"
@@ -320,9 +320,58 @@ func PNG(t *rapid.T, o Opts) File {
 		}
 	}
 	f.Pre = len(p.Pre)
-	if p.ColorType == 3 {
-		ne := rapid.IntRange(1, 1<<p.Depth).Draw(t, "plte")
-		p.Pre = append(p.Pre, build.Chunk{Type: "PLTE", Data: make([]byte, 3*ne)})
+	ne := 0
+	switch p.ColorType {
+	case 3:
+		ne = rapid.IntRange(1, 1<<p.Depth).Draw(t, "plte")
+	case 2, 6:
+		// truecolour images may carry a suggested palette (PNG 11.2.3)
+		if rapid.IntRange(0, 2).Draw(t, "suggestedplte") == 0 {
+			ne = Biased(t, "splte", 1, 256, 1, 2, 255, 256)
+		}
+	}
+	if ne > 0 {
+		pd := make([]byte, 3*ne)
+		for k := range pd {
+			pd[k] = byte(k*5 + ne)
+		}
+		p.Pre = append(p.Pre, build.Chunk{Type: "PLTE", Data: pd})
+		f.Notes = append(f.Notes, fmt.Sprintf("PLTE with %d entries", ne))
+		// chunks that may only stand between the palette and the image data
+		for k := rapid.IntRange(0, 3).Draw(t, "nafterplte"); k > 0; k-- {
+			typ := rapid.SampledFrom([]string{"tRNS", "bKGD", "hIST", "tEXt", "pHYs", "sPLT", "tIME", "eXIf"}).Draw(t, "afterplte")
+			ln := rapid.IntRange(0, 600).Draw(t, "afterpltelen")
+			switch typ {
+			case "tRNS":
+				switch p.ColorType {
+				case 3:
+					ln = rapid.IntRange(1, ne).Draw(t, "trnslen")
+				case 2:
+					ln = 6
+				default:
+					typ = "tEXt"
+				}
+			case "bKGD":
+				ln = 6
+				if p.ColorType == 3 {
+					ln = 1
+				}
+			case "hIST":
+				ln = 2 * ne
+			case "pHYs":
+				ln = 9
+			case "tIME":
+				ln = 7
+			}
+			d := make([]byte, ln)
+			for i := range d {
+				d[i] = byte(i*11 + k)
+			}
+			if typ == "bKGD" && p.ColorType == 3 {
+				d[0] = 0
+			}
+			p.Pre = append(p.Pre, build.Chunk{Type: typ, Data: d})
+		}
 	}
 	p.IDAT = make([]byte, rapid.IntRange(0, 40).Draw(t, "idat"))
 	for k := range p.IDAT {
@@ -335,7 +384,11 @@ func PNG(t *rapid.T, o Opts) File {
 }
 
 func jpegFiller(t *rapid.T, i int, pos int) build.Seg {
-	kind := rapid.IntRange(0, 9).Draw(t, "segkind")
+	kind := rapid.IntRange(0, 13).Draw(t, "segkind")
+	if kind >= 10 {
+		// what cameras, phones and editors really write: JFIF/JFXX, Exif, XMP, MPF, FlashPix, Photoshop resources ...
+		return build.Vocab(rapid.SampledFrom(build.VocabKinds).Draw(t, "vocab"), rapid.IntRange(0, 999).Draw(t, "vocabvar"))
+	}
 	switch kind {
 	case 0:
 		return build.Seg{Marker: 0xDB, Data: build.DQT(byte(i))}
